@@ -210,3 +210,39 @@ func init() {
 		return tuple{bytesToValues([]byte("# configuration added through the API (yaml.Marshal is not modelled)\n")), iface{}}
 	}
 }
+
+func init() {
+	// sort.Slice / sort.SliceStable use reflectlite.Swapper, which the engine's
+	// reflection does not cover: an insertion sort (stable) over the slice with
+	// the caller's less function, swapping elements in place. A symbolic result
+	// of less forks like any other branch.
+	sortSlice := func(fr *frame, args []value) value {
+		i := fr.i
+		itf, ok := args[0].(iface)
+		if !ok {
+			panic(unsupported("sort.Slice on a non-interface argument"))
+		}
+		xs, ok := itf.v.([]value)
+		if !ok {
+			panic(targetPanic{"sort.Slice: argument is not a slice"})
+		}
+		less := func(a, b int) bool {
+			r := call(i, fr, 0, args[1], []value{a, b})
+			switch v := r.(type) {
+			case bool:
+				return v
+			case symb:
+				return i.decide(v.t)
+			}
+			panic(unsupported("sort.Slice: less returned an unexpected value"))
+		}
+		for a := 1; a < len(xs); a++ {
+			for b := a; b > 0 && less(b, b-1); b-- {
+				xs[b], xs[b-1] = xs[b-1], xs[b]
+			}
+		}
+		return nil
+	}
+	stubs["sort.Slice"] = sortSlice
+	stubs["sort.SliceStable"] = sortSlice
+}
